@@ -325,6 +325,104 @@ func (b *batch) run(id int, n int) {
 	b.level2(ctx, 77, src, dst, "5.0.1.2", "5.0.1.2", base) // undoc: specific on generic L1, host 5.0.1.2
 }
 
+// ------------------------------------------------------------------ epochs and rotation part
+// Two real service engines (source AS A, destination AS B with a level-1 fetcher into A) are asked
+// for level-1 keys at explicit validity times that walk across epoch boundaries; the prefetcher's
+// request (now + epoch length) and the cleaners (DeleteExpired* with an explicit cut-off) are
+// interleaved. No sleeps, no wall clock. Times are whole seconds relative to an epoch start.
+
+type countingFetcher struct {
+	f *fetcher
+	n int
+}
+
+func (c *countingFetcher) Level1(ctx context.Context, m drkey.Level1Meta) (drkey.Level1Key, error) {
+	c.n++
+	return c.f.Level1(ctx, m)
+}
+
+func epochs(w *vt.Writer, rng *rand.Rand, n int, keys map[drkey.Key]int) int {
+	ctx := context.Background()
+	cnt := 0
+	kid := func(k drkey.Key) int {
+		if v, ok := keys[k]; ok {
+			return v
+		}
+		keys[k] = len(keys) + 1
+		return keys[k]
+	}
+	for i := 0; i < n; i++ {
+		dsec := []int{7, 10, 60, 3600}[rng.Intn(4)]
+		D := time.Duration(dsec) * time.Second
+		base := time.Unix(int64((1_650_000_000/dsec+rng.Intn(100000))*dsec), 0)
+		byIA := map[addr.IA]*as{}
+		cf := &countingFetcher{f: &fetcher{ases: byIA}}
+		mk := func(ia string, tag string) (*as, *svsqlite.Backend, *l1sqlite.Backend) {
+			a := &as{ia: addr.MustParseIA(ia), secret: make([]byte, 16)}
+			rng.Read(a.secret)
+			a.name = secretName(a.secret)
+			svdb, err := svsqlite.NewBackend(fmt.Sprintf("esv-%d-%s", i, tag), &db.SqliteConfig{InMemory: true})
+			if err != nil {
+				vt.Fatal("sv db: %v", err)
+			}
+			l1db, err := l1sqlite.NewBackend(fmt.Sprintf("el1-%d-%s", i, tag), &db.SqliteConfig{InMemory: true})
+			if err != nil {
+				vt.Fatal("l1 db: %v", err)
+			}
+			arc, _ := cdrkey.NewLevel1ARC(20)
+			a.eng = &cdrkey.ServiceEngine{SecretBackend: cdrkey.NewSecretValueBackend(svdb, a.secret, D), LocalIA: a.ia,
+				DB: l1db, Fetcher: cf, PrefetchKeeper: arc}
+			byIA[a.ia] = a
+			return a, svdb, l1db
+		}
+		A, svA, _ := mk("1-ff00:0:110", "a")
+		B, _, l1B := mk("1-ff00:0:111", "b")
+		p := []drkey.Protocol{drkey.SCMP, drkey.Generic}[rng.Intn(2)]
+		w.Emit(vt.M{"ev": "reset", "part": "epoch", "id": i, "d": dsec, "w": 0, "g": 0})
+		now := 0 // seconds since base
+		rel := func(t time.Time) int { return int(t.Unix() - base.Unix()) }
+		get := func(who string, e *cdrkey.ServiceEngine, t int) {
+			before := cf.n
+			k, err := e.GetLevel1Key(ctx, drkey.Level1Meta{ProtoId: p, Validity: base.Add(time.Duration(t) * time.Second),
+				SrcIA: A.ia, DstIA: B.ia})
+			ev := vt.M{"ev": "l1", "who": who, "now": now, "t": t, "ok": err == nil, "eb": 0, "ee": 0, "key": 0,
+				"fetched": cf.n > before}
+			if err == nil {
+				ev["eb"], ev["ee"], ev["key"] = rel(k.Epoch.NotBefore), rel(k.Epoch.NotAfter), kid(k.Key)
+			}
+			w.Emit(ev)
+			cnt++
+		}
+		for step := 0; step < 40; step++ {
+			switch rng.Intn(8) {
+			case 0, 1: // time passes: to just before / exactly at / just after the next boundary, or a bit
+				nb := (now/dsec + 1) * dsec
+				now = []int{nb - 1, nb, nb + 1, now + 1, now + dsec/2}[rng.Intn(5)]
+			case 2:
+				get("src", A.eng, now+rng.Intn(2))
+			case 3, 4:
+				get("dst", B.eng, now)
+			case 5: // the prefetcher: the key for now + epoch length
+				get("dst", B.eng, now+dsec)
+			case 6: // a request for an instant around the next boundary
+				nb := (now/dsec + 1) * dsec
+				get("dst", B.eng, nb+rng.Intn(3)-1)
+			case 7: // the cleaners with cut-off now
+				cut := base.Add(time.Duration(now) * time.Second)
+				n1, err1 := l1B.DeleteExpiredLevel1Keys(ctx, cut)
+				n2, err2 := svA.DeleteExpiredValues(ctx, cut)
+				if err1 != nil || err2 != nil {
+					vt.Fatal("clean: %v %v", err1, err2)
+				}
+				w.Emit(vt.M{"ev": "clean", "now": now, "l1": n1, "sv": n2})
+			}
+		}
+		svA.Close()
+		l1B.Close()
+	}
+	return cnt
+}
+
 // ------------------------------------------------------------------ acceptance window part
 
 func window(w *vt.Writer, rng *rand.Rand, n int) int {
@@ -388,12 +486,14 @@ func main() {
 	nb := flag.Int("batches", 6, "derivation batches")
 	n := flag.Int("n", 12, "derivation rounds per batch")
 	nw := flag.Int("windows", 40, "acceptance-window configurations")
+	nep := flag.Int("epochs", 30, "epoch-rotation histories")
 	flag.Parse()
 	b := &batch{w: vt.NewWriter(*out), rng: vt.Rand(39)}
 	for i := 0; i < *nb; i++ {
 		b.run(i, *n)
 	}
+	ne := epochs(b.w, vt.Rand(393939), *nep, map[drkey.Key]int{})
 	c := window(b.w, vt.Rand(3939), *nw)
 	b.w.Close()
-	fmt.Printf("keys=%d selections=%d\n", b.nkeys, c)
+	fmt.Printf("keys=%d selections=%d rotations=%d\n", b.nkeys, c, ne)
 }
